@@ -110,7 +110,6 @@ def run_case(rng, tier, res):
     script = []
     budget = rng.randint(2500, 4500)
     used = 0
-    prev_abort = False
     while (used < budget and len(script) < 14) or len(script) < 3:
         r = rng.random()
         nwords = 1 if r < 0.3 else 2 if r < 0.55 else 3 if r < 0.75 else rng.randint(4, 5)
@@ -339,8 +338,6 @@ def run_case(rng, tier, res):
                     yield from clock_bit(bit)
                     if change is not None and bi == change[1] and bi <= ws - 2:
                         # right after this bit's trailing edge; far enough (>= 3 cycles) from the word's last sample edge
-                        if cpha == 0 and bi == ws - 2 and ws == 2:
-                            pass
                         b.set(dut.word_out, change[0])
                         res.bin("word_out_changed_inside_transaction")
             if t["clk2cs"] == 1:
